@@ -646,6 +646,8 @@ class Normalizer:
     def substitutable(self, x, uses, attr_stores, mutates) -> bool:
         if isinstance(x, (ast.Constant, ast.Name)):
             return True
+        if isinstance(x, ast.UnaryOp) and isinstance(x.op, (ast.USub, ast.UAdd)) and isinstance(x.operand, ast.Constant) and isinstance(x.operand.value, (int, float)):
+            return True
         if uses == 0:
             return is_pure(x)
         if isinstance(x, ast.Attribute):
@@ -857,8 +859,13 @@ class Normalizer:
             if len(vals) == 1:
                 return vals[0]
             return ast.copy_location(ast.BoolOp(op=t.op, values=vals), t)
-        if isinstance(t, ast.Compare) and len(t.ops) == 1 and isinstance(t.left, ast.Constant) and isinstance(t.comparators[0], ast.Constant):
-            a, b = t.left.value, t.comparators[0].value
+        def _num(e):
+            if isinstance(e, ast.UnaryOp) and isinstance(e.op, ast.USub) and isinstance(e.operand, ast.Constant) and isinstance(e.operand.value, (int, float)) \
+                    and not isinstance(e.operand.value, bool):
+                return ast.Constant(value=-e.operand.value)
+            return e
+        if isinstance(t, ast.Compare) and len(t.ops) == 1 and isinstance(_num(t.left), ast.Constant) and isinstance(_num(t.comparators[0]), ast.Constant):
+            a, b = _num(t.left).value, _num(t.comparators[0]).value
             op = t.ops[0]
             if isinstance(op, ast.Is):
                 if a is None or b is None or isinstance(a, bool) or isinstance(b, bool):
